@@ -32,7 +32,10 @@ def run(ctx):
                 nfiles_a += 1
         # (a2) back-fill: a later session starts earlier and records forward into a subdirectory that already exists
         nback = 0
-        for i in range(ctx.pick(12, 300)):
+        want_back = ctx.pick(12, 300)
+        for i in range(40 * want_back):
+            if nback >= want_back:
+                break
             import numpy as np
             from ..drivers import chan_drv as cd
             import shutil
